@@ -105,6 +105,10 @@ def front_axes(fnode):
         d = dotted(n.func) or ''
         name = d.split('.')[-1] if d else (n.func.attr if isinstance(n.func, ast.Attribute) else '')
         func_form = d.startswith(('torch.', 'pp.')) or isinstance(n.func, ast.Name)
+        if name in ('column_stack', 'hstack', 'vstack', 'dstack', 'row_stack') and func_form:
+            out.append((n, '`%s` picks its axis by the RANK of the operands (1-D: stacks as columns / rows; n-D: concatenates along axis 1 / 0 / 2 counted from the '
+                           'front): it equals stack / cat along the last axis for one batch rank only' % name))
+            continue
         if name == 't' and not n.args and not func_form:
             out.append((n, '`.t()` is defined for matrices only: any batch dimension makes it raise'))
             continue
@@ -242,7 +246,34 @@ def view_of_param(fnode):
                 for el in (t.elts if isinstance(t, ast.Tuple) else [t]):
                     if isinstance(el, ast.Name) and el.id in params:
                         rebound.setdefault(el.id, []).append(n.lineno)
+    # elements of a parameter: the loop / comprehension variable over a parameter (or over zip / enumerate of parameters) has the caller's layout too
+    elem = {}
     for n in ast.walk(fnode):
+        its = []
+        if isinstance(n, ast.comprehension):
+            its.append((n.target, n.iter, getattr(n.iter, 'lineno', 0)))
+        elif isinstance(n, ast.For):
+            its.append((n.target, n.iter, n.lineno))
+        for tgt, it, ln in its:
+            pairs = []
+            if isinstance(it, ast.Name) and isinstance(tgt, ast.Name):
+                pairs.append((tgt, it))
+            elif isinstance(it, ast.Call) and dotted(it.func) == 'zip' and isinstance(tgt, ast.Tuple) and len(tgt.elts) == len(it.args):
+                pairs += [(t, a_) for t, a_ in zip(tgt.elts, it.args) if isinstance(t, ast.Name)]
+            elif isinstance(it, ast.Call) and dotted(it.func) == 'enumerate' and isinstance(tgt, ast.Tuple) and len(tgt.elts) == 2 and it.args and isinstance(tgt.elts[1], ast.Name):
+                pairs.append((tgt.elts[1], it.args[0]))
+            for t, sname in pairs:
+                if isinstance(sname, ast.Name) and sname.id in params and not any(l < ln for l in rebound.get(sname.id, [])) and t.id not in params:
+                    elem[t.id] = sname.id
+    for n in ast.walk(fnode):
+        if isinstance(n, ast.Call) and isinstance(n.func, ast.Attribute) and n.func.attr == 'view' and isinstance(n.func.value, ast.Name) and n.func.value.id in elem:
+            own = n.func.value.id
+            # view(*x.shape, 1, 1): appending singleton axes to the tensor's own shape is valid for every layout
+            if n.args and isinstance(n.args[0], ast.Starred) and dotted(n.args[0].value) == own + '.shape' and all(isinstance(x, ast.Constant) and x.value == 1 for x in n.args[1:]):
+                continue
+            if not (n.args and all(isinstance(x, ast.Attribute) and x.attr == 'dtype' for x in n.args)):
+                out.append((n, 'an element of ' + elem[n.func.value.id]))
+            continue
         if isinstance(n, ast.Call) and isinstance(n.func, ast.Attribute) and n.func.attr == 'view' and isinstance(n.func.value, ast.Name) and n.func.value.id in params:
             p = n.func.value.id
             # a rebinding on an EARLIER line (p = p.contiguous() / torch.as_tensor(p) ...) makes the layout the function's own; the statement
@@ -256,9 +287,9 @@ def view_of_param(fnode):
 
 
 @guarded
-def rule_viewarg(repo, rid, modules, exempt=('lview', 'view', 'view_as')):
+def rule_viewarg(repo, rid, modules, exempt=('lview', 'view', 'view_as'), floor=20, exempt_sites=None):
     res = RuleResult(rid, 'batch transparency over memory layouts: no converter / kernel of these modules applies `.view(shape)` to a tensor it was handed by the caller '
-                     '(use reshape): a transposed / permuted / expanded batch is as valid an input as a contiguous one, and view() raises on it', floor=20)
+                     '(use reshape): a transposed / permuted / expanded batch is as valid an input as a contiguous one, and view() raises on it', floor=floor)
     for m in modules:
         for f in repo.module(m).functions.values():
             if f.node.name in exempt:
@@ -266,6 +297,9 @@ def rule_viewarg(repo, rid, modules, exempt=('lview', 'view', 'view_as')):
             hz = view_of_param(f.node)
             res.inst({'function': f.fq, 'view() of a parameter': [src(x)[:40] for x, _ in hz]}, f.fq)
             for node, p in hz:
+                if exempt_sites and (f.fq, norm_construct(node, f.node)) in exempt_sites:
+                    res.inst({'function': f.fq, 'view': src(node)[:50], 'tabled': exempt_sites[(f.fq, norm_construct(node, f.node))]}, (f.fq, 'tabled', src(node)[:50]))
+                    continue
                 res.add(Finding(rid, f, '`%s`: `%s` has the memory layout the caller chose; for a batch whose dimensions cannot be merged without a copy (a transposed or '
                                 'permuted batch of rank >= 2) view() raises "view size is not compatible with input tensor\'s size and stride" where a result is promised'
                                 % (src(node)[:50], p), node=node, construct='view of parameter|' + norm_construct(node, f.node)))
